@@ -10,7 +10,11 @@ PROP = dict(
                    "whenever the key is configured with a present value, the zero values 0 / false / 0.0 / \"\" included (C17_default_ignored); "
                    "a property that is populated AGAIN after a failed creation of its component binds exactly what a first-time population under the CURRENT "
                    "configuration binds, whatever TagVal and field contents the earlier population left (C17_repopulate_current, on the holder model "
-                   "Ioc.Value.createTwice: Property objects survive in the definition registry). The full statements are FALSE of the code (the value path FormatAny -> splice -> ParseAny is "
+                   "Ioc.Value.createTwice: Property objects survive in the definition registry). Configure.Set is modelled as viper's override layer over the merged documents (Ioc.Value.Binder; "
+                   "a lookup is a function of the two layers as they are now): after Set the path answers with what was set, in any letter case (C17_set_get), every ancestor answers with a "
+                   "map in which the rest of the path leads to it (C17_set_seen_through_ancestor), every path below a map that was set answers from that map (C17_set_seen_below), and a holder "
+                   "populated later is populated under the configuration as it is then (C17_later_population_current) - so the prefix / value / prop theorems, which hold for every "
+                   "configuration function, speak about the CURRENT configuration. The full statements are FALSE of the code (the value path FormatAny -> splice -> ParseAny is "
                    "lossy); one machine-checked counterexample per class (C17_counterexamples) is replayed on the real code on every run and listed as a "
                    "known finding. The model is tied to the real container by a differential run of thousands of value x type pairs per run.",
         level_note="Partial: the value-path theorems carry the decidable hypothesis Faithful / PlainLiteral; encoding/json is a parameter assumed to "
@@ -35,12 +39,27 @@ PROP = dict(
              "(one history in five repoints an indirection instead: `value:\"${${kenv}}\"`, `prop:\"${kenv}\"`, `prefix:\"${kenv}\"`), then GetComponentByName(holder); "
              "v1 and v2 are two different values of the field type outside the lossy classes (also pointers to structs); after the second creation "
              "V = P = X = the CURRENT document value is demanded (a field that still shows the first configuration's value: oracle repopulate-stale); "
+             "after the n cases, n/10 HISTORIES WITH Set BETWEEN TWO POPULATIONS (kind HS): a document with a section (2-4 leaves: strings, ints, booleans outside the lossy classes) and "
+             "often a sub-section; an EAGER holder created by a start - fields of their own types: the section or sub-section bound by prefix as a struct over some of its members "
+             "or as map[string]any, leaves bound by `${a.b}`, `prop:\"a.b\"`, `prefix:\"a.b\"`, inside a text, with a default on an absent key, paths in any letter case -, "
+             "then app.Set (a leaf below a section the start looked up; the sub-section or section replaced by a map with changed values, upper-case keys, missing siblings; "
+             "the path in another letter case; a key or section that was absent; several Sets at, above and below one path), then a LATE holder populated afterwards: "
+             "mode s = a second App sharing the Configure (app.SetConfigure, no loaders) after a SUCCESSFUL start; mode w = the same App, whose start created the eager holder "
+             "and failed while the late holder's dependency was down, GetComponentByName afterwards; mode z = the same App after a SUCCESSFUL start, the late holder a "
+             "LazyInit component (four Go-declared holders over a fixed vocabulary: reflect.StructOf types cannot carry methods) fetched with GetComponentByName. The late "
+             "holder binds the section by prefix (struct reading the changed leaf, or map) next to value / prop twins of the changed leaf: every late field whose path the "
+             "harness's own account of the configuration is sure of (document + values handed to Set, composed in order: a path no Set is near, or one that a Set at or above "
+             "it gave a value; structs member by member, texts placeholder by placeholder) must hold the CURRENT value converted to its type - setget-stale (the field shows what "
+             "the document said before Set) / setget-current / setget-first (eager holder); "
              "non-trivial = everything except bool->bool; distinct = distinct scenario lines",
         trusted_base=COMMON_TB + ["yaml.v3 + viper (document -> Go value), strconv2.ParseAny/FormatAny, mapstructure weak decoding, fmt %v / strconv.FormatFloat, "
                                   "encoding/json as modelled in Ioc.Value (validated by the correspondence on every run)",
                                   "assumption Json.Lawful on the JSON codec parameter of the list/map part of C17_value_eq_prefix_partial"],
         assumptions=["configuration keys are plain (letters, digits, . _ -) and lower-case (viper lower-cases keys; C15's matter)",
                      "the numeric kind of a number stored under `any` is not compared (int 5 and float64 5 render alike); nil and empty slices/maps render alike",
+                     "histories (HS): what a lookup answers BESIDE a path that was handed to Set - `db.port` read through `prefix:\"db\"` after Set(\"db.host\", x): viper answers a section from its "
+                     "override layer alone, the prefix-bound struct gets port 0 while prop:\"db.port\" still gives the document's value - follows viper's layering; the model has it, the "
+                     "oracle claims nothing there (observation kept out of the findings); paths run through maps (no list index), Set is not handed nil",
                      "value-path equality is claimed for Faithful values only; its complement is exactly the eight known-finding classes "
                      "(numberlike, boollike, quoted, bracketed, bigint, empty, reexpanded, panic)",
                      "pairs whose Go behaviour is implementation defined or outside the modelled float class (negative -> uint, underscores in numeric strings, "
